@@ -20,7 +20,7 @@ const PREFIX: [u8; 6] = [0xfd, 0x15, 0x07, 0x0a, 0x51, 0x0b];
 /// the reserved 64-bit prefixes fd15:070a:510b:000{0,1,3}; everything else (all IPv4, all
 /// other IPv6) is an ordinary IP address and is passed through unchanged.
 #[kani::proof]
-#[kani::unwind(8)]
+#[kani::unwind(20)]
 #[kani::stub(n0_error::backtrace_enabled, vstubs::backtrace_disabled)]
 fn c18_classification_all_addresses() {
     let a = any_socket_addr();
@@ -67,7 +67,7 @@ fn c18_classification_all_addresses() {
 /// C18: the three TryFrom<Ipv6Addr> ranges are pairwise disjoint and a synthetic address
 /// survives private_socket_addr -> classification as the same kind with the same bits.
 #[kani::proof]
-#[kani::unwind(8)]
+#[kani::unwind(20)]
 #[kani::stub(n0_error::backtrace_enabled, vstubs::backtrace_disabled)]
 fn c18_kinds_disjoint_and_roundtrip() {
     let ip: [u8; 16] = kani::any();
@@ -104,7 +104,7 @@ fn c18_kinds_disjoint_and_roundtrip() {
 }
 
 #[kani::proof]
-#[kani::unwind(8)]
+#[kani::unwind(20)]
 #[kani::stub(n0_error::backtrace_enabled, vstubs::backtrace_disabled)]
 fn c18_witness() {
     let a = any_socket_addr();
